@@ -382,25 +382,403 @@ Proof.
     set (g' := G c' (ps g) (net g) (gnow g) (gh g) (dec g) (applied g) (discarded g) (cast g) (parts_of g)).
     assert (NC : forall tx0, NoCommit g tx0 -> NoCommit g' tx0).
     { apply (NoCommit_aset g g' tx t t'); auto. intros P2. rewrite P0 in P2. discriminate. }
-    pose proof I as I0. destruct I. constructor; cbn [co ps net dec applied discarded cast parts_of g']; auto.
-    + rewrite Ep. now apply aset_NoDup.
-    + intros tx0 t0. rewrite Ep, Hn, aget_aset. destruct (N.eqb_spec tx tx0) as [<-|]; [intros _; eauto|eauto].
-    + intros tx0 b Hd. destruct (iB0 tx0 b Hd) as [Hlt Gn]. rewrite Hn. split; [exact Hlt|].
+    destruct I as [iO0 iA0 iB0 iC0 iD0 iE0 iF0 iG0 iH0 iI0 iJ0 iK0 iL0 iN0 iM0 iP0]. constructor.
+    + (* iO *) cbn. rewrite Ep. now apply aset_NoDup.
+    + (* iA *) cbn. intros tx0 t0. rewrite Ep, Hn, aget_aset. destruct (N.eqb_spec tx tx0) as [<-|]; [intros _; eauto|eauto].
+    + (* iB *) cbn. intros tx0 b Hd. destruct (iB0 tx0 b Hd) as [Hlt Gn]. rewrite Hn. split; [exact Hlt|].
       rewrite Ep, aget_aset. destruct (N.eqb_spec tx tx0) as [<-|]; [congruence|exact Gn].
-    + intros tx0 t0. rewrite Ep, aget_aset. destruct (N.eqb_spec tx tx0) as [<-|]; [|eauto].
+    + (* iC *) exact iC0.
+    + (* iD *) cbn. intros tx0 t0. rewrite Ep, aget_aset. destruct (N.eqb_spec tx tx0) as [<-|]; [|eauto].
       intros [= <-] P1 sh0 Hsh. cbn in P1. subst ph.
       destruct Hph as [[? _]|[[_ [_ [_ [AV AY]]]]|[? _]]]; try discriminate.
       exact (all_voted_yes t' AV AY sh0 Hsh).
-    + intros tx0 t0 sh0 h. rewrite Ep, aget_aset. destruct (N.eqb_spec tx tx0) as [<-|]; [|eauto].
+    + (* iE *) cbn. intros tx0 t0 sh0 h. rewrite Ep, aget_aset. destruct (N.eqb_spec tx tx0) as [<-|]; [|eauto].
       intros [= <-]. cbn [c_votes t']. rewrite aget_aset. destruct (N.eqb_spec sh sh0) as [<-|]; [|eauto].
       intros [= ->]. exact Hok.
-    + intros tx0 sh0 H. apply NC. eauto.
-    + intros tx0 shs H.
-      destruct Hph as [[_ [_ Ea]]|[[_ [_ [Ea _]]]|[-> [_ Ea]]]]; rewrite Ea in H; try (apply NC; eauto).
-      apply in_app_single in H. destruct H as [H|[= -> ->]]; [apply NC; eauto|].
+    + (* iF *) exact iF0.
+    + (* iG *) exact iG0.
+    + (* iH *) intros tx0 sh0 H. apply NC. exact (iH0 tx0 sh0 H).
+    + (* iI *) intros tx0 shs H. cbn [co g'] in H.
+      assert (Hq : In (tx0, shs) (aborts (co g)) \/ (ph = 2 /\ tx0 = tx)).
+      { destruct Hph as [[_ [_ Ea]]|[[_ [_ [Ea _]]]|[-> [_ Ea]]]]; rewrite Ea in H; auto.
+        apply in_app_single in H. destruct H as [H|[= -> ->]]; auto. }
+      destruct Hq as [Hq|[-> ->]]; [apply NC; exact (iI0 tx0 shs Hq)|].
       right. exists t'. split; [cbn; rewrite Ep, aget_aset, N.eqb_refl; reflexivity|reflexivity].
-    + intros tx0 sh0 H. apply NC. eauto.
-    + intros tx0 t0 parts. rewrite Ep, aget_aset. destruct (N.eqb_spec tx tx0) as [<-|]; [|eauto].
+    + (* iJ *) exact iJ0.
+    + (* iK *) intros tx0 sh0 H. apply NC. exact (iK0 tx0 sh0 H).
+    + (* iL *) cbn. intros tx0 t0 parts. rewrite Ep, aget_aset. destruct (N.eqb_spec tx tx0) as [<-|]; [|eauto].
       intros [= <-] Hp. cbn. eauto.
-    + intros tx0 parts Hp. rewrite Hn. eauto.
+    + (* iN *) cbn. intros tx0 parts Hp. rewrite Hn. eauto.
+    + (* iM *) exact iM0.
+    + (* iP *) exact iP0.
+Qed.
+
+(* ---------------------------------------------------------------- begin *)
+Lemma in_prepares m tx ops parts : In m (map (fun sh => MPrepare tx sh (ops_for ops sh)) parts) -> exists sh o, m = MPrepare tx sh o.
+Proof. intros H. apply in_map_iff in H. destruct H as [sh [<- _]]. eauto. Qed.
+
+Lemma begin_Inv g parts ops xconf : Inv g -> Inv (fst (gstep g (EBegin parts ops xconf))).
+Proof.
+  intros I. cbn [gstep c_begin fst].
+  set (n := nextid (co g)).
+  set (t0 := Ctx 0 parts [] (gnow g) (prep_tmo (co g)) xconf).
+  assert (NC : forall g' tx0, dec g' = dec g -> pending (co g') = aset (pending (co g)) n t0 -> NoCommit g tx0 -> NoCommit g' tx0).
+  { intros g' tx0 Ed Ep [H|[t [Gt P]]]; unfold NoCommit; rewrite Ed, Ep; [now left|right].
+    rewrite aget_aset. destruct (N.eqb_spec n tx0) as [E|]; [|eauto].
+    exfalso. pose proof (iA g I tx0 t Gt). unfold n in E. lia. }
+  destruct I as [iO0 iA0 iB0 iC0 iD0 iE0 iF0 iG0 iH0 iI0 iJ0 iK0 iL0 iN0 iM0 iP0]. constructor.
+  - cbn. now apply aset_NoDup.
+  - cbn. intros tx t. rewrite aget_aset. destruct (N.eqb_spec n tx) as [<-|]; [intros _; unfold n; lia|].
+    intros Gt. pose proof (iA0 tx t Gt). fold n in H. lia.
+  - cbn. intros tx b Hd. destruct (iB0 tx b Hd) as [Hlt Gn]. fold n in Hlt. split; [lia|].
+    rewrite aget_aset. destruct (N.eqb_spec n tx); [lia|exact Gn].
+  - exact iC0.
+  - cbn. intros tx t. rewrite aget_aset. destruct (N.eqb_spec n tx) as [<-|]; [intros [= <-]; cbn; discriminate|eauto].
+  - cbn. intros tx t sh h. rewrite aget_aset. destruct (N.eqb_spec n tx) as [<-|]; [intros [= <-]; cbn; discriminate|eauto].
+  - cbn. intros tx sh h H. apply in_app_iff in H. destruct H as [H|H]; [eauto|]. apply in_prepares in H. destruct H as [? [? ?]]. discriminate.
+  - cbn. intros tx sh H. apply in_app_iff in H. destruct H as [H|H]; [eauto|]. apply in_prepares in H. destruct H as [? [? ?]]. discriminate.
+  - intros tx sh H. cbn [net] in H. apply in_app_iff in H. destruct H as [H|H].
+    + eapply NC; [reflexivity|reflexivity|]. exact (iH0 tx sh H).
+    + apply in_prepares in H. destruct H as [? [? ?]]. discriminate.
+  - intros tx shs H. eapply NC; [reflexivity|reflexivity|]. exact (iI0 tx shs H).
+  - exact iJ0.
+  - intros tx sh H. eapply NC; [reflexivity|reflexivity|]. exact (iK0 tx sh H).
+  - cbn. intros tx t parts0. rewrite aget_aset. destruct (N.eqb_spec n tx) as [<-|Hne].
+    + intros [= <-] [[= <-]|Hp]; [reflexivity|]. pose proof (iN0 n parts0 Hp). unfold n in H. lia.
+    + intros Gt [[= E _]|Hp]; [congruence|eauto].
+  - cbn. intros tx parts0 [[= <- _]|Hp]; [unfold n; lia|]. pose proof (iN0 tx parts0 Hp). lia.
+  - cbn. intros tx parts0 sh Hd [[= <- _]|Hp] Hs; [|eauto]. destruct (iB0 n true Hd) as [Hlt _]. unfold n in Hlt. lia.
+  - exact iP0.
+Qed.
+
+(* ---------------------------------------------------------------- commit / abort decisions *)
+Lemma NoCommit_adel g g' tx b :
+  (forall x, In x (dec g) -> In x (dec g')) -> pending (co g') = adel (pending (co g)) tx ->
+  In (tx, b) (dec g') -> (b = true -> forall t, aget (pending (co g)) tx = Some t -> c_phase t <> 2) ->
+  forall tx0, NoCommit g tx0 -> NoCommit g' tx0.
+Proof.
+  intros Hd Ep Hin Hb tx0 [H|[t [Gt P]]]; unfold NoCommit; [left; auto|].
+  destruct (N.eq_dec tx tx0) as [<-|Hne].
+  - destruct b; [exfalso; eapply Hb; eauto|left; exact Hin].
+  - right. rewrite Ep, aget_adel. destruct (N.eqb_spec tx tx0); [contradiction|eauto].
+Qed.
+
+Lemma dec_snoc_NoDup g tx b t : Inv g -> aget (pending (co g)) tx = Some t -> NoDup (map fst (dec g ++ [(tx, b)])).
+Proof.
+  intros I Gt. rewrite map_app. apply NoDup_app_intro; [exact (iC g I)|cbn; constructor; [tauto|constructor]|].
+  intros x Hx [<-|[]]. apply in_map_iff in Hx. destruct Hx as [[x' b'] [E Hin]]. cbn in E. subst x'.
+  destruct (iB g I _ _ Hin) as [_ Gn]. congruence.
+Qed.
+
+Lemma in_bcast mk shs m : In m (bcast mk shs) -> exists sh, m = mk sh.
+Proof. unfold bcast. intros H. apply in_map_iff in H. destruct H as [sh [<- _]]. eauto. Qed.
+
+Lemma commit_Inv g tx : Inv g -> Inv (fst (gstep g (ECommit tx))).
+Proof.
+  intros I. cbn [gstep]. pose proof (c_commit_cases (co g) tx) as Hc.
+  destruct (c_commit (co g) tx) as [[c' r] shs]. cbn [fst].
+  destruct Hc as [[-> [Hr ->]]|[t [Gt [P1 [-> [-> ->]]]]]].
+  - destruct (N.eqb_spec r 0); [contradiction|]. cbn [bcast map]. rewrite app_nil_r.
+    destruct I. constructor; cbn; assumption.
+  - cbn [N.eqb]. change (N.eqb 0 0) with true. cbv iota.
+    set (g' := G _ _ _ _ _ _ _ _ _ _).
+    assert (NC : forall tx0, NoCommit g tx0 -> NoCommit g' tx0).
+    { apply (NoCommit_adel g g' tx true); cbn.
+      - intros x Hx. apply in_or_app. now left.
+      - reflexivity.
+      - apply in_or_app. right. now left.
+      - intros _ t' Gt'. rewrite Gt in Gt'. injection Gt' as <-. rewrite P1. discriminate. }
+    pose proof (dec_snoc_NoDup g tx true t I Gt) as NDd.
+    destruct I as [iO0 iA0 iB0 iC0 iD0 iE0 iF0 iG0 iH0 iI0 iJ0 iK0 iL0 iN0 iM0 iP0]. constructor.
+    + cbn. now apply adel_NoDup.
+    + cbn. intros tx0 t0. rewrite aget_adel. destruct (N.eqb tx tx0); [discriminate|eauto].
+    + cbn. intros tx0 b Hd. apply in_app_single in Hd. destruct Hd as [Hd|[= -> ->]].
+      * destruct (iB0 tx0 b Hd) as [Hlt Gn]. split; [exact Hlt|]. rewrite aget_adel. destruct (N.eqb tx tx0); [reflexivity|exact Gn].
+      * split; [eauto|]. rewrite aget_adel, N.eqb_refl. reflexivity.
+    + exact NDd.
+    + cbn. intros tx0 t0. rewrite aget_adel. destruct (N.eqb tx tx0); [discriminate|eauto].
+    + cbn. intros tx0 t0 sh h. rewrite aget_adel. destruct (N.eqb tx tx0); [discriminate|eauto].
+    + cbn. intros tx0 sh h H. apply in_app_iff in H. destruct H as [H|H]; [eauto|]. apply in_bcast in H. destruct H; discriminate.
+    + cbn. intros tx0 sh H. apply in_app_iff in H. apply in_or_app. destruct H as [H|H]; [left; eauto|].
+      apply in_bcast in H. destruct H as [sh' [= -> ->]]. right. now left.
+    + intros tx0 sh H. cbn [net g'] in H. apply in_app_iff in H. destruct H as [H|H]; [apply NC; eauto|].
+      apply in_bcast in H. destruct H; discriminate.
+    + intros tx0 shs H. apply NC. exact (iI0 tx0 shs H).
+    + cbn. intros tx0 sh H. apply in_or_app. left. eauto.
+    + intros tx0 sh H. apply NC. exact (iK0 tx0 sh H).
+    + cbn. intros tx0 t0 parts. rewrite aget_adel. destruct (N.eqb tx tx0); [discriminate|eauto].
+    + exact iN0.
+    + cbn. intros tx0 parts sh Hd Hp Hs. apply in_app_single in Hd. destruct Hd as [Hd|[= ->]]; [eauto|].
+      rewrite (iL0 tx t parts Gt Hp) in Hs. destruct (iD0 tx t Gt P1 sh Hs) as [h Gv]. eauto.
+    + exact iP0.
+Qed.
+
+Lemma abort_Inv g tx : Inv g -> Inv (fst (gstep g (EAbort tx))).
+Proof.
+  intros I. cbn [gstep]. pose proof (c_abort_cases (co g) tx) as Hc.
+  destruct (c_abort (co g) tx) as [[c' r] shs]. cbn [fst].
+  destruct Hc as [[-> [Hr ->]]|[t [Gt [-> [-> ->]]]]].
+  - destruct (N.eqb_spec r 0); [contradiction|]. cbn [bcast map]. rewrite app_nil_r.
+    destruct I. constructor; cbn; assumption.
+  - change (N.eqb 0 0) with true. cbv iota.
+    set (g' := G _ _ _ _ _ _ _ _ _ _).
+    assert (NC : forall tx0, NoCommit g tx0 -> NoCommit g' tx0).
+    { apply (NoCommit_adel g g' tx false); cbn.
+      - intros x Hx. apply in_or_app. now left.
+      - reflexivity.
+      - apply in_or_app. right. now left.
+      - discriminate. }
+    pose proof (dec_snoc_NoDup g tx false t I Gt) as NDd.
+    destruct I as [iO0 iA0 iB0 iC0 iD0 iE0 iF0 iG0 iH0 iI0 iJ0 iK0 iL0 iN0 iM0 iP0]. constructor.
+    + cbn. now apply adel_NoDup.
+    + cbn. intros tx0 t0. rewrite aget_adel. destruct (N.eqb tx tx0); [discriminate|eauto].
+    + cbn. intros tx0 b Hd. apply in_app_single in Hd. destruct Hd as [Hd|[= -> ->]].
+      * destruct (iB0 tx0 b Hd) as [Hlt Gn]. split; [exact Hlt|]. rewrite aget_adel. destruct (N.eqb tx tx0); [reflexivity|exact Gn].
+      * split; [eauto|]. rewrite aget_adel, N.eqb_refl. reflexivity.
+    + exact NDd.
+    + cbn. intros tx0 t0. rewrite aget_adel. destruct (N.eqb tx tx0); [discriminate|eauto].
+    + cbn. intros tx0 t0 sh h. rewrite aget_adel. destruct (N.eqb tx tx0); [discriminate|eauto].
+    + cbn. intros tx0 sh h H. apply in_app_iff in H. destruct H as [H|H]; [eauto|]. apply in_bcast in H. destruct H; discriminate.
+    + cbn. intros tx0 sh H. apply in_app_iff in H. apply in_or_app. destruct H as [H|H]; [left; eauto|].
+      apply in_bcast in H. destruct H; discriminate.
+    + intros tx0 sh H. cbn [net g'] in H. apply in_app_iff in H. destruct H as [H|H]; [apply NC; eauto|].
+      apply in_bcast in H. destruct H as [sh' [= -> ->]]. left. cbn. apply in_or_app. right. now left.
+    + intros tx0 shs H. apply NC. exact (iI0 tx0 shs H).
+    + cbn. intros tx0 sh H. apply in_or_app. left. eauto.
+    + intros tx0 sh H. apply NC. exact (iK0 tx0 sh H).
+    + cbn. intros tx0 t0 parts. rewrite aget_adel. destruct (N.eqb tx tx0); [discriminate|eauto].
+    + exact iN0.
+    + cbn. intros tx0 parts sh Hd Hp Hs. apply in_app_single in Hd. destruct Hd as [Hd|Hd]; [eauto|discriminate].
+    + exact iP0.
+Qed.
+
+(* ---------------------------------------------------------------- timeouts / abort broadcast *)
+Lemma filter_keys_NoDup {V} (f : N * V -> bool) (l : list (N * V)) : NoDup (map fst l) -> NoDup (map fst (filter f l)).
+Proof.
+  induction l as [|[k v] r IH]; cbn; intros ND; [constructor|]. inversion ND as [|? ? Hn ND']; subst.
+  destruct (f (k, v)); cbn; [|auto]. constructor; [|auto].
+  intros H. apply Hn. apply in_map_iff in H. destruct H as [[k' v'] [E Hin]]. cbn in E. subst k'.
+  apply filter_In in Hin. destruct Hin as [Hin _]. change k with (fst (k, v')). now apply in_map.
+Qed.
+
+Definition timed_list (now : N) (pd : list (N * ctx)) : list (N * list N) :=
+  map (fun kt => (fst kt, c_parts (snd kt))) (filter (fun kt => timed_out now (snd kt)) pd).
+
+Lemma timed_list_In now pd tx shs : NoDup (map fst pd) ->
+  (In (tx, shs) (timed_list now pd) <-> exists t, aget pd tx = Some t /\ timed_out now t = true /\ shs = c_parts t).
+Proof.
+  intros ND. unfold timed_list. rewrite in_map_iff. split.
+  - intros [[k t] [[= <- <-] Hin]]. apply filter_In in Hin. destruct Hin as [Hin T]. cbn in *.
+    exists t. split; [now apply In_aget|auto].
+  - intros [t [Gt [T ->]]]. exists (tx, t). split; [reflexivity|]. apply filter_In. split; [now apply aget_In|exact T].
+Qed.
+
+Lemma timed_list_keys now pd : map fst (timed_list now pd) = map fst (filter (fun kt => timed_out now (snd kt)) pd).
+Proof. unfold timed_list. rewrite map_map. reflexivity. Qed.
+
+Lemma timeouts_Inv g : Inv g -> Inv (fst (gstep g ETimeouts)).
+Proof.
+  intros I. cbn [gstep c_timeouts fst].
+  fold (timed_list (gnow g) (pending (co g))).
+  set (out := sort_by_fst (timed_list (gnow g) (pending (co g)))).
+  set (pd' := filter (fun kt => negb (timed_out (gnow g) (snd kt))) (pending (co g))).
+  set (g' := G _ _ _ _ _ _ _ _ _ _).
+  pose proof (iO g I) as ND.
+  assert (Hout : forall tx shs, In (tx, shs) out <-> exists t, aget (pending (co g)) tx = Some t /\ timed_out (gnow g) t = true /\ shs = c_parts t).
+  { intros tx shs. unfold out. rewrite sort_by_fst_In. now apply timed_list_In. }
+  assert (Hpd : forall tx, aget pd' tx = match aget (pending (co g)) tx with
+                                        | Some t => if negb (timed_out (gnow g) t) then Some t else None | None => None end).
+  { intros tx. unfold pd'. now rewrite aget_filter. }
+  assert (Hsub : forall tx t, aget pd' tx = Some t -> aget (pending (co g)) tx = Some t).
+  { intros tx t. rewrite Hpd. destruct (aget (pending (co g)) tx) as [t0|]; [|discriminate]. destruct (negb _); [auto|discriminate]. }
+  assert (Hdec : forall tx shs, In (tx, shs) out -> In (tx, false) (dec g')).
+  { intros tx shs H. cbn. apply in_or_app. right. apply in_map_iff. exists (tx, shs). auto. }
+  assert (NC : forall tx0, NoCommit g tx0 -> NoCommit g' tx0).
+  { intros tx0 [H|[t [Gt P]]]; [left; cbn; apply in_or_app; now left|].
+    destruct (timed_out (gnow g) t) eqn:T.
+    - left. apply (Hdec tx0 (c_parts t)). apply Hout. eauto.
+    - right. exists t. split; [|exact P]. cbn. fold pd'. rewrite Hpd, Gt, T. reflexivity. }
+  destruct I as [iO0 iA0 iB0 iC0 iD0 iE0 iF0 iG0 iH0 iI0 iJ0 iK0 iL0 iN0 iM0 iP0]. constructor.
+  - cbn. now apply filter_keys_NoDup.
+  - cbn. fold pd'. intros tx t H. eauto.
+  - cbn. fold pd'. intros tx b Hd. apply in_app_iff in Hd. destruct Hd as [Hd|Hd].
+    + destruct (iB0 tx b Hd) as [Hlt Gn]. split; [exact Hlt|]. rewrite Hpd, Gn. reflexivity.
+    + apply in_map_iff in Hd. destruct Hd as [[tx' shs] [[= <- <-] Hin]]. apply Hout in Hin. destruct Hin as [t [Gt [T _]]].
+      split; [eauto|]. rewrite Hpd, Gt, T. reflexivity.
+  - cbn. rewrite map_app, map_map. cbn [fst]. apply NoDup_app_intro; [exact iC0| |].
+    + unfold out. eapply Permutation_NoDup; [apply Permutation_map, Permutation_sym, sort_by_fst_perm|].
+      rewrite timed_list_keys. now apply filter_keys_NoDup.
+    + intros x Hx Hy. apply in_map_iff in Hx. destruct Hx as [[x' b] [E Hin]]. cbn in E. subst x'.
+      destruct (iB0 _ _ Hin) as [_ Gn].
+      apply in_map_iff in Hy. destruct Hy as [[x' shs] [E Hin']]. cbn in E. subst x'.
+      apply Hout in Hin'. destruct Hin' as [t [Gt _]]. congruence.
+  - cbn. fold pd'. intros tx t H. eauto.
+  - cbn. fold pd'. intros tx t sh h H. eauto.
+  - exact iF0.
+  - cbn. intros tx sh H. apply in_or_app. left. eauto.
+  - intros tx sh H. apply NC. exact (iH0 tx sh H).
+  - intros tx shs H. cbn [co aborts g'] in H. apply in_app_iff in H. destruct H as [H|H]; [apply NC; exact (iI0 tx shs H)|].
+    left. eapply Hdec; eauto.
+  - cbn. intros tx sh H. apply in_or_app. left. eauto.
+  - intros tx sh H. apply NC. exact (iK0 tx sh H).
+  - cbn. fold pd'. intros tx t parts H. eauto.
+  - exact iN0.
+  - cbn. intros tx parts sh Hd Hp Hs. apply in_app_iff in Hd. destruct Hd as [Hd|Hd]; [eauto|].
+    apply in_map_iff in Hd. destruct Hd as [? [? _]]. discriminate.
+  - exact iP0.
+Qed.
+
+Lemma in_abort_msgs q m : In m (abort_msgs q) -> exists tx sh shs, m = MAbort tx sh /\ In (tx, shs) q.
+Proof.
+  unfold abort_msgs. rewrite in_flat_map. intros [[tx shs] [Hin H]]. cbn in H. apply in_bcast in H. destruct H as [sh ->]. eauto.
+Qed.
+
+Lemma take_Inv g : Inv g -> Inv (fst (gstep g ETakeAborts)).
+Proof.
+  intros I. cbn [gstep c_take fst].
+  destruct I as [iO0 iA0 iB0 iC0 iD0 iE0 iF0 iG0 iH0 iI0 iJ0 iK0 iL0 iN0 iM0 iP0]. constructor; try assumption.
+  - cbn. intros tx sh h H. apply in_app_iff in H. destruct H as [H|H]; [eauto|]. apply in_abort_msgs in H. destruct H as [? [? [? [? _]]]]. discriminate.
+  - cbn. intros tx sh H. apply in_app_iff in H. destruct H as [H|H]; [eauto|]. apply in_abort_msgs in H. destruct H as [? [? [? [? _]]]]. discriminate.
+  - intros tx sh H. cbn [net] in H. apply in_app_iff in H. destruct H as [H|H]; [exact (iH0 tx sh H)|].
+    apply in_abort_msgs in H. destruct H as [tx' [sh' [shs [[= -> ->] Hin]]]]. apply (proj1 (sort_by_fst_In _ _)) in Hin. exact (iI0 _ _ Hin).
+  - cbn. intros tx shs [].
+Qed.
+
+(* ---------------------------------------------------------------- every event keeps the invariant *)
+Theorem gstep_Inv g e : Inv g -> Inv (fst (gstep g e)).
+Proof.
+  intros I. destruct e.
+  - now apply begin_Inv.
+  - cbn [gstep]. destruct (nth_error (net g) (N.to_nat i)) as [m|] eqn:Nm; [|exact I].
+    assert (Hin : In m (net g)) by (eapply nth_error_In; eauto).
+    pose proof (net_msg_ok g m I Hin) as Hok.
+    set (g0 := if keep then g else G (co g) (ps g) (remove_nth (net g) (N.to_nat i)) (gnow g) (gh g) (dec g) (applied g) (discarded g) (cast g) (parts_of g)).
+    assert (I0 : Inv g0) by (unfold g0; destruct keep; [exact I|apply shrink_Inv; [exact I|intros m'; apply remove_nth_In]]).
+    assert (Hok0 : msg_ok g0 m) by (unfold g0; destruct keep; exact Hok).
+    destruct m as [tx sh ops|tx sh v|tx sh|tx sh].
+    + now apply deliver_prepare_Inv.
+    + now apply deliver_vote_Inv.
+    + now apply deliver_commit_Inv.
+    + now apply deliver_abort_Inv.
+  - cbn [gstep fst]. apply shrink_Inv; [exact I|intros m; apply remove_nth_In].
+  - now apply commit_Inv.
+  - now apply abort_Inv.
+  - now apply timeouts_Inv.
+  - now apply take_Inv.
+  - cbn [gstep fst]. now apply advance_Inv.
+Qed.
+
+Theorem grun_Inv es : forall g, Inv g -> Inv (grun g es).
+Proof. induction es as [|e r IH]; intros g I; [exact I|]. change (grun g (e :: r)) with (grun (fst (gstep g e)) r). apply IH. now apply gstep_Inv. Qed.
+
+(* ================================================================== 4. the theorems *)
+Definition parts_init (parts0 : list (list (N * N) * N)) : list part := map (fun st => part_init (fst st) (snd st)) parts0.
+Definition start (ctmo : N) (parts0 : list (list (N * N) * N)) : gst := ginit ctmo (parts_init parts0).
+
+Lemma start_Inv ctmo parts0 : Inv (start ctmo parts0).
+Proof.
+  apply ginit_Inv. intros p Hp. unfold parts_init in Hp. apply in_map_iff in Hp. destruct Hp as [st [<- _]]. apply part_init_PInv.
+Qed.
+
+Theorem reachable_Inv ctmo parts0 es : Inv (grun (start ctmo parts0) es).
+Proof. apply grun_Inv, start_Inv. Qed.
+
+(* decisions are only ever appended *)
+Lemma gstep_dec_ext g e : exists l, dec (fst (gstep g e)) = dec g ++ l.
+Proof.
+  destruct e; cbn [gstep].
+  - exists []. cbn. now rewrite app_nil_r.
+  - destruct (nth_error (net g) (N.to_nat i)) as [m|]; [|exists []; now rewrite app_nil_r].
+    exists []. rewrite app_nil_r.
+    destruct keep, m; cbn [deliver];
+      repeat match goal with
+             | |- context [nth_part ?a ?b] => destruct (nth_part a b)
+             | |- context [p_prepare ?a ?b ?c ?d ?e] => destruct (p_prepare a b c d e)
+             | |- context [c_vote ?a ?b ?c ?d] => destruct (c_vote a b c d)
+             | |- context [p_commit ?a ?b] => destruct (p_commit a b)
+             end; reflexivity.
+  - exists []. cbn. now rewrite app_nil_r.
+  - destruct (c_commit (co g) tx) as [[c' r] shs]. cbn. destruct (N.eqb r 0); [eauto|exists []; now rewrite app_nil_r].
+  - destruct (c_abort (co g) tx) as [[c' r] shs]. cbn. destruct (N.eqb r 0); [eauto|exists []; now rewrite app_nil_r].
+  - cbn. eauto.
+  - exists []. cbn. now rewrite app_nil_r.
+  - exists []. cbn. now rewrite app_nil_r.
+Qed.
+
+Lemma grun_dec_ext es : forall g, exists l, dec (grun g es) = dec g ++ l.
+Proof.
+  induction es as [|e r IH]; intros g; [exists []; cbn; now rewrite app_nil_r|].
+  change (grun g (e :: r)) with (grun (fst (gstep g e)) r).
+  destruct (IH (fst (gstep g e))) as [l2 E2]. destruct (gstep_dec_ext g e) as [l1 E1].
+  exists (l1 ++ l2). rewrite E2, E1. now rewrite app_assoc.
+Qed.
+
+Lemma NoDup_fst_fun {A B} (l : list (A * B)) k a b : NoDup (map fst l) -> In (k, a) l -> In (k, b) l -> a = b.
+Proof.
+  induction l as [|[k0 v0] r IH]; cbn; intros ND Ha Hb; [destruct Ha|]. inversion ND as [|? ? Hn ND']; subst.
+  destruct Ha as [Ea|Ha], Hb as [Eb|Hb].
+  - congruence.
+  - exfalso. injection Ea as -> ->. apply Hn. change k with (fst (k, b)). now apply in_map.
+  - exfalso. injection Eb as -> ->. apply Hn. change k with (fst (k, a)). now apply in_map.
+  - auto.
+Qed.
+
+(* one decision per transaction, and it never changes afterwards *)
+Theorem one_decision ctmo parts0 es es' tx b b' :
+  let g := grun (start ctmo parts0) es in
+  In (tx, b) (dec g) -> In (tx, b') (dec (grun g es')) -> b = b'.
+Proof.
+  intros g Hb Hb'. destruct (grun_dec_ext es' g) as [l E].
+  assert (I' : Inv (grun g es')) by (apply grun_Inv, reachable_Inv).
+  eapply NoDup_fst_fun; [exact (iC _ I')| |exact Hb']. rewrite E. apply in_or_app. now left.
+Qed.
+
+(* commit is decided only if every participant answered Yes *)
+Theorem commit_all_yes ctmo parts0 es tx parts sh :
+  let g := grun (start ctmo parts0) es in
+  In (tx, true) (dec g) -> In (tx, parts) (parts_of g) -> In sh parts -> In (tx, sh) (cast g).
+Proof. intros g. exact (iM g (reachable_Inv ctmo parts0 es) tx parts sh). Qed.
+
+(* writes are applied only under a commit decision *)
+Theorem applied_only_committed ctmo parts0 es tx sh :
+  let g := grun (start ctmo parts0) es in In (tx, sh) (applied g) -> In (tx, true) (dec g).
+Proof. intros g. exact (iJ g (reachable_Inv ctmo parts0 es) tx sh). Qed.
+
+(* the shards never end up split: applied somewhere and discarded elsewhere is impossible *)
+Theorem no_split ctmo parts0 es tx sh sh' :
+  let g := grun (start ctmo parts0) es in In (tx, sh) (applied g) -> In (tx, sh') (discarded g) -> False.
+Proof.
+  intros g Ha Hd. pose proof (reachable_Inv ctmo parts0 es) as I. fold g in I.
+  apply (NoCommit_not_committed g tx I (iK g I tx sh' Hd)). exact (iJ g I tx sh Ha).
+Qed.
+
+(* an aborted transaction is never applied anywhere *)
+Theorem aborted_never_applied ctmo parts0 es tx sh :
+  let g := grun (start ctmo parts0) es in In (tx, false) (dec g) -> ~ In (tx, sh) (applied g).
+Proof.
+  intros g Hf Ha. pose proof (reachable_Inv ctmo parts0 es) as I. fold g in I.
+  apply (NoCommit_not_committed g tx I (or_introl Hf)). exact (iJ g I tx sh Ha).
+Qed.
+
+(* abort leaves the shard's data exactly as it was, unless another tx committed on one of its keys since its prepare *)
+Theorem abort_leaves_data ctmo parts0 es sh p tx :
+  let g := grun (start ctmo parts0) es in
+  nth_part (ps g) sh = Some p -> ~ In tx (dirty p) ->
+  forall k, aget (store (p_abort p tx)) k = aget (store p) k.
+Proof.
+  intros g Np Hd. apply p_abort_keeps_data; [|exact Hd].
+  exact (iP g (reachable_Inv ctmo parts0 es) p (nth_part_In _ _ _ Np)).
+Qed.
+
+(* without the guard the statement is false: F-C03-undo *)
+Definition undo_witness : list ev :=
+  [EBegin [0] [(0, [Put 0 7])] false; EDeliver 0 false; EAdvance 30;
+   EBegin [0] [(0, [Put 0 9])] false; EDeliver 1 false; EDeliver 1 false; ECommit 2; EDeliver 1 false].
+Theorem abort_leaves_data_refuted :
+  exists ctmo parts0 es sh p tx k,
+    nth_part (ps (grun (start ctmo parts0) es)) sh = Some p /\
+    aget (store (p_abort p tx)) k <> aget (store p) k.
+Proof.
+  exists 100000, [([(0, 5)], 5)], undo_witness, 0.
+  eexists. exists 1, 0. split; [vm_compute; reflexivity|]. vm_compute. discriminate.
 Qed.
